@@ -354,9 +354,10 @@ Qed.
 
 (* ------------------------------------------------------------------ getitem: (coords.astype(intp) - start) // step
    Since 0a2ad47 the map is computed in intp: the stored dtype no longer enters (D6 repaired). *)
-(* what normalize_index leaves in a slice facing an axis of extent n *)
+(* what normalize_index leaves in a slice facing an axis of extent n (an empty selection with a
+   negative step may be left as start = stop = n, e.g. x[1:2:-1] on n = 2) *)
 Definition norm_slice (n start step : Z) : Prop :=
-  (0 < step /\ 0 <= start <= n) \/ (step < 0 /\ -1 <= start < n).
+  (0 < step /\ 0 <= start <= n) \/ (step < 0 /\ -1 <= start <= n).
 
 Theorem width_irrelevant_getitem_proof t start stop step c :
   m_getitem (DInt t) start stop step c = m_getitem DInf start stop step c.
